@@ -504,6 +504,11 @@ VSsetname(int32       vkey, /* IN: Vdata key */
     if (vs == NULL)
         HGOTO_ERROR(DFE_BADPTR, FAIL);
 
+    /* a vdata attached for reading is never written back: refuse instead of
+       dropping the change silently */
+    if (vs->access != 'w')
+        HGOTO_ERROR(DFE_BADACC, FAIL);
+
     /* get current length of vdata name */
     curr_len = (int32)strnlen(vs->vsname, VSNAMELENMAX + 1);
 
@@ -563,6 +568,11 @@ VSsetclass(int32       vkey, /* IN: vdata key */
     vs = w->vs;
     if (vs == NULL)
         HGOTO_ERROR(DFE_BADPTR, FAIL);
+
+    /* a vdata attached for reading is never written back: refuse instead of
+       dropping the change silently */
+    if (vs->access != 'w')
+        HGOTO_ERROR(DFE_BADACC, FAIL);
 
     /* get current length of vdata class name */
     curr_len = (int)strlen(vs->vsclass);
